@@ -94,6 +94,7 @@ class _Atom:
 class _SgRecord:
     def __init__(self, rot, trans):
         self.nsymop = len(rot)
+        self.nuniq = len(rot)          # the symbolic instance is a primitive group: no centring copies
         self.rot = rot
         self.trans = trans
 
